@@ -20,6 +20,8 @@ enum Item {
     T(usize),
     /// the shared loading resource number n is read here (under the ambient boundary)
     U(usize),
+    /// resource number n is created here (in the current scope, under the ambient boundary)
+    R(usize),
 }
 
 fn parse_items(s: &str) -> Option<Vec<Item>> {
@@ -32,6 +34,7 @@ fn parse_items(s: &str) -> Option<Vec<Item>> {
         let r = match head.as_str() {
             "t" => { let n = t.get(*i)?.parse().ok()?; *i += 1; Item::T(n) }
             "u" => { let n = t.get(*i)?.parse().ok()?; *i += 1; Item::U(n) }
+            "R" => { let n = t.get(*i)?.parse().ok()?; *i += 1; Item::R(n) }
             "s" | "b" | "L" => {
                 let mut v = vec![];
                 while t.get(*i)? != ")" { v.push(go(t, i)?); }
@@ -52,6 +55,7 @@ fn show_items(v: &[Item]) -> String {
         Item::B(c) => format!("(b{})", if c.is_empty() { String::new() } else { format!(" {}", show_items(c)) }),
         Item::T(n) => format!("(t {n})"),
         Item::U(n) => format!("(u {n})"),
+        Item::R(n) => format!("(R {n})"),
     }).collect::<Vec<_>>().join(" ")
 }
 
@@ -69,7 +73,9 @@ struct World {
     dead_scopes: Vec<bool>,
     polls_after_dispose: Vec<(usize, usize)>,
     /// shared resources (created in the root scope before the items): the sender that lets the fetch finish
-    res: Vec<(sycamore::web::Resource<u32>, Option<oneshot::Sender<()>>)>,
+    res: std::collections::BTreeMap<usize, (sycamore::web::Resource<u32>, Option<oneshot::Sender<()>>)>,
+    /// the scope each resource was created in
+    res_owner: std::collections::BTreeMap<usize, usize>,
     /// per task-like item: the resource it stands for (reads of a shared resource are counted as tasks)
     task_res: Vec<Option<usize>>,
 }
@@ -115,18 +121,33 @@ fn build(w: &Rc<RefCell<World>>, items: &[Item], cur: usize, ctx: Option<usize>)
                 });
             }
             Item::U(n) => {
-                let r = w.borrow().res[*n].0;
+                let r = w.borrow().res[n].0;
                 // any access through `Deref` registers the ambient boundary (a guard while loading)
                 let _ = r.get_clone_untracked();
                 let mut ww = w.borrow_mut();
-                ww.task_tx.push(vec![]); ww.task_scope.push(0); ww.task_boundary.push(ctx); ww.task_left.push(1); ww.task_cancelled.push(false); ww.task_res.push(Some(*n));
+                // the guard is held by the resource: it lives in the scope that owns the resource
+                let owner = ww.res_owner.get(n).copied().unwrap_or(0);
+                ww.task_tx.push(vec![]); ww.task_scope.push(owner); ww.task_boundary.push(ctx); ww.task_left.push(1); ww.task_cancelled.push(false); ww.task_res.push(Some(*n));
+            }
+            Item::R(n) => {
+                let (tx, rx) = oneshot::channel::<()>();
+                let mut rx = Some(rx);
+                let r = create_isomorphic_resource(move || { let rx = rx.take(); async move { if let Some(rx) = rx { let _ = rx.await; } 42u32 } });
+                let mut ww = w.borrow_mut();
+                ww.res.insert(*n, (r, Some(tx)));
+                ww.res_owner.insert(*n, cur);
+                // its fetch is a suspense task of the current scope under the ambient boundary
+                ww.task_tx.push(vec![]); ww.task_scope.push(cur); ww.task_boundary.push(ctx); ww.task_left.push(1); ww.task_cancelled.push(false); ww.task_res.push(Some(*n));
             }
         }
     }
 }
 
 fn max_res(items: &[Item]) -> usize {
-    items.iter().map(|i| match i { Item::S(c) | Item::B(c) => max_res(c), Item::U(n) => n + 1, Item::T(_) => 0 }).max().unwrap_or(0)
+    items.iter().map(|i| match i { Item::S(c) | Item::B(c) => max_res(c), Item::U(n) | Item::R(n) => n + 1, Item::T(_) => 0 }).max().unwrap_or(0)
+}
+fn declared(items: &[Item], out: &mut Vec<usize>) {
+    for i in items { match i { Item::S(c) | Item::B(c) => declared(c, out), Item::R(n) => out.push(*n), _ => {} } }
 }
 
 async fn drain() {
@@ -161,11 +182,14 @@ fn run_suspense(items: &[Item], events: &[String]) -> (String, Option<String>) {
         let root = create_root(|| {});
         root.run_in(|| {
             { let mut ww = w.borrow_mut(); ww.scopes.push(use_current_scope()); ww.scope_parent.push(None); ww.dead_scopes.push(false); }
-            for _ in 0..max_res(items) {
+            let mut decl = vec![];
+            declared(items, &mut decl);
+            for n in 0..max_res(items) {
+                if decl.contains(&n) { continue; } // created by an `(R n)` item, in its own scope
                 let (tx, rx) = oneshot::channel::<()>();
                 let mut rx = Some(rx);
                 let r = create_isomorphic_resource(move || { let rx = rx.take(); async move { if let Some(rx) = rx { let _ = rx.await; } 42u32 } });
-                w.borrow_mut().res.push((r, Some(tx)));
+                w.borrow_mut().res.insert(n, (r, Some(tx)));
             }
             build(&w, items, 0, None);
         });
@@ -181,7 +205,7 @@ fn run_suspense(items: &[Item], events: &[String]) -> (String, Option<String>) {
             let (kind, n): (char, usize) = (e1.chars().next().unwrap(), e1[1..].parse().unwrap());
             r = catch(|| root.run_in(|| match kind {
                 'r' => {
-                    let tx = { let mut ww = w.borrow_mut(); ww.res.get_mut(n).and_then(|r| r.1.take()) };
+                    let tx = { let mut ww = w.borrow_mut(); ww.res.get_mut(&n).and_then(|r| r.1.take()) };
                     if let Some(tx) = tx {
                         let _ = tx.send(());
                         let mut ww = w.borrow_mut();
@@ -458,7 +482,7 @@ fn permutations(v: &[String]) -> Vec<Vec<String>> {
 fn count(items: &[Item]) -> (usize, usize, Vec<usize>) {
     // (scopes created, boundaries, awaits per task) in creation order
     fn go(items: &[Item], s: &mut usize, b: &mut usize, t: &mut Vec<usize>) {
-        for i in items { match i { Item::S(c) => { *s += 1; go(c, s, b, t) } Item::B(c) => { *s += 1; *b += 1; go(c, s, b, t) } Item::T(n) => t.push(*n), Item::U(_) => t.push(1) } }
+        for i in items { match i { Item::S(c) => { *s += 1; go(c, s, b, t) } Item::B(c) => { *s += 1; *b += 1; go(c, s, b, t) } Item::T(n) => t.push(*n), Item::U(_) | Item::R(_) => t.push(1) } }
     }
     let (mut s, mut b, mut t) = (0, 0, vec![]);
     go(items, &mut s, &mut b, &mut t);
@@ -467,7 +491,7 @@ fn count(items: &[Item]) -> (usize, usize, Vec<usize>) {
 
 /// is the t-th task-like item (creation order) a real task (not a resource read)?
 fn items_task_is_real(items: &[Item], t: usize) -> bool {
-    fn go(items: &[Item], v: &mut Vec<bool>) { for i in items { match i { Item::S(c) | Item::B(c) => go(c, v), Item::T(_) => v.push(true), Item::U(_) => v.push(false) } } }
+    fn go(items: &[Item], v: &mut Vec<bool>) { for i in items { match i { Item::S(c) | Item::B(c) => go(c, v), Item::T(_) => v.push(true), Item::U(_) | Item::R(_) => v.push(false) } } }
     let mut v = vec![];
     go(items, &mut v);
     v.get(t).copied().unwrap_or(false)
@@ -589,6 +613,52 @@ pub fn generate(args: &Args) -> Vec<String> {
         for r in 0..max_res(&items) { evs.push(format!("r{r}")); }
         for i in (1..evs.len()).rev() { let j = rng.below(i + 1); evs.swap(i, j); }
         l.push(format!("async suspense (L {}) {}", show_items(&items), if evs.is_empty() { "-".into() } else { evs.join(",") }));
+    }
+    // C13/C14: a resource created INSIDE the tree (in a scope that can be disposed), read under boundaries elsewhere:
+    // the guards of the reads live in the resource, so they are released when it delivers or when the scope that
+    // owns the resource is disposed; disposals at every point
+    for sh in ["(L (b (s (R 0) (u 0))))", "(L (s (R 0) (b (u 0)) (b (s (u 0)))))", "(L (b (R 0) (s (b (u 0) (t 1)))) (b (t 1)))", "(L (s (s (R 0)) (b (t 1))) (b (t 2)))"] {
+        let items = parse_items(sh).unwrap();
+        let (scopes, _, tasks) = count(&items);
+        let mut evs: Vec<String> = vec![];
+        for (t, n) in tasks.iter().enumerate() { if items_task_is_real(&items, t) { for _ in 0..*n { evs.push(format!("c{t}")); } } }
+        evs.push("r0".into());
+        for pos in 0..=evs.len() {
+            for sc in 1..=scopes {
+                let mut e = evs.clone();
+                e.insert(pos, format!("d{sc}"));
+                l.push(format!("async suspense {sh} {}", e.join(",")));
+            }
+        }
+    }
+    for _ in 0..(if thorough { 20_000 } else { 800 }) {
+        let mut budget = 7;
+        let mut items = gen_items(&mut rng, 3, &mut budget);
+        // put the resource at the front of a random container (or of the top level); reads come after it
+        fn containers(items: &Vec<Item>) -> usize { 1 + items.iter().map(|i| match i { Item::S(c) | Item::B(c) => containers(c), _ => 0 }).sum::<usize>() }
+        fn place(items: &mut Vec<Item>, k: &mut usize, seen: &mut bool, rng: &mut Rng) {
+            if *k == 0 && !*seen { items.insert(0, Item::R(0)); *seen = true; }
+            if *k > 0 { *k -= 1; }
+            let start = if *seen && matches!(items.first(), Some(Item::R(_))) { 1 } else { 0 };
+            for i in items.iter_mut().skip(start) {
+                match i {
+                    Item::T(_) => if *seen && rng.chance(1, 2) { *i = Item::U(0); },
+                    Item::S(c) | Item::B(c) => place(c, k, seen, rng),
+                    _ => {}
+                }
+            }
+        }
+        let mut k = rng.below(containers(&items));
+        let mut seen = false;
+        place(&mut items, &mut k, &mut seen, &mut rng);
+        if !seen { continue; }
+        let (scopes, _, tasks) = count(&items);
+        let mut evs: Vec<String> = vec![];
+        for (t, n) in tasks.iter().enumerate() { if items_task_is_real(&items, t) { for _ in 0..*n { evs.push(format!("c{t}")); } } }
+        evs.push("r0".into());
+        for i in (1..evs.len()).rev() { let j = rng.below(i + 1); evs.swap(i, j); }
+        if scopes > 0 { for _ in 0..rng.below(3) { let pos = rng.below(evs.len() + 1); evs.insert(pos, format!("d{}", 1 + rng.below(scopes))); } }
+        l.push(format!("async suspense (L {}) {}", show_items(&items), evs.join(",")));
     }
     // C15 with a subscriber that writes the dependency from inside a delivery (re-entrant refetch)
     {
